@@ -101,13 +101,22 @@ func runC07(c *Ctx, r *Run) {
 				}
 				allInstrs(f, func(in ssa.Instruction) {
 					call, isCall := in.(*ssa.Call)
-					if !isCall || call.Call.StaticCallee() != callee {
+					if !isCall || !callMayBe(call, callee) {
 						return
 					}
-					// argument comes from ranging over recv.<queue>[...]
-					if dependsOn(call.Call.Args[1], func(v ssa.Value) bool {
+					// argument comes from ranging over recv.<queue>[...] (a queue and its verifier chosen together by one
+					// branch: the queue on the edges where this verifier is chosen)
+					if dependsOn(normArgs(call)[1], func(v ssa.Value) bool {
 						rg, isR := v.(*ssa.Range)
-						return isR && containsField(paramFields(f, rg.X), "recv."+queue)
+						if !isR {
+							return false
+						}
+						for _, qv := range edgeValuesFor(call, callee, rg.X) {
+							if !containsField(paramFields(f, qv), "recv."+queue) {
+								return false
+							}
+						}
+						return true
 					}) {
 						found = true
 						where = c.Pos(call.Pos())
@@ -225,15 +234,25 @@ func runC07(c *Ctx, r *Run) {
 			what := ""
 			switch x := in.(type) {
 			case *ssa.Call:
-				cal := x.Call.StaticCallee()
-				if cal == nil || cal.Signature.Recv() == nil || !types.Identical(cal.Signature.Recv().Type(), recvT) {
+				var names []string
+				for _, cal := range calleeCandidates(x) {
+					if cal.Signature.Recv() == nil || !types.Identical(cal.Signature.Recv().Type(), recvT) {
+						continue
+					}
+					if cn := canonFnName(cal); cn != "canAccept" && cn != "duplicate" {
+						names = append(names, cn)
+					}
+				}
+				if len(names) == 0 {
 					return
 				}
-				cn := canonFnName(cal)
-				if cn == "canAccept" || cn == "duplicate" {
-					return
+				// a call through a local method value stands for each method it can be (verify := h.verifyMessage; ...)
+				for _, cn := range names[1:] {
+					ok, _ := callResultEdgeDominates(a, "canAccept", true, in.Block())
+					r.Check("OB-Q5", c.FuncName(a)+"|call "+cn+"|after-filter", c.Pos(in.Pos()), ok, "runs only for a message that passed canAccept",
+						"call "+cn+" is reachable in Accept for a message that did not pass canAccept: a foreign message changes this session's outcome")
 				}
-				what = "call " + cn
+				what = "call " + names[0]
 			case *ssa.MapUpdate:
 				if !containsPrefix(paramFields(a, x.Map), "recv.") {
 					return
